@@ -69,10 +69,10 @@ theorem entry_points_agree (P : Params) (set0 : Settings) (w0 : World) (h : List
     let b := rulesScanMem P .fixed cb stack (settingsAfter set0 h) data size { st.w with nmsg := 0 }
     a.msgs = b.msgs ∧ a.rc = b.rc := by
   intro st a b
-  have hinv : HInv st := runH_inv P .fixed _ h (HInv.init set0 w0)
+  have hinv : HInv st := runH_inv P .fixed _ h (HInv.init set0 w0) (reuseOk_fixed h)
   have hset : st.sc.set = settingsAfter set0 h := runH_set P .fixed _ h
   have := scanCall_fresh_eq P cb stack st.sc (memIt data size) { st.w with nmsg := 0 }
-    (by rw [hset]; exact hcb) hinv.inv (by simp [memIt])
+    (by rw [hset]; exact hcb) hinv.inv (Or.inl (by simp [memIt]))
   rw [hset] at this
   simp only [CallOut.obs, Prod.mk.injEq] at this
   exact ⟨this.2.2.2.2.1, this.2.2.2.2.2⟩
@@ -204,7 +204,7 @@ theorem eval_phase_not_ready_changes_verdict (v : Variant) :
     b.msgs = [.ruleMatching 0 [], .scanFinished] ∧ b.rc = .success ∧
     nrWithin (lateNR.blocks.length + 1) lateNR.sched = false := by
   cases v with
-  | mk a b => cases a <;> cases b <;> decide
+  | mk a b c => cases a <;> cases b <;> cases c <;> decide
 
 open Witness13 in
 /-- non-vacuity of `resume_equiv`: a schedule with three not-ready answers (to the second call twice and to
